@@ -739,6 +739,58 @@ pub fn family(r: &mut Rng, which: usize) -> Key {
 }
 
 
+/// (derive, shape) pairs of the *wide* generator: the derives no family covers, each with the item shape it takes.
+/// Shapes: 's' named struct, 't' tuple struct, 'a' named struct whose first field carries the derive's field
+/// attribute, 'e' enum with payload variants, 'u' field-less enum, 'r' field-less enum with `#[try_from(repr)]`.
+pub const WIDE_DERIVES: &[(&str, char, &str)] = &[
+    ("Constructor", 's', ""), ("Constructor", 't', ""), ("Add", 's', ""), ("Sub", 't', ""), ("BitAnd", 's', ""), ("BitOr", 't', ""), ("BitXor", 's', ""),
+    ("Not", 's', ""), ("Neg", 't', ""), ("AddAssign", 's', ""), ("SubAssign", 't', ""), ("BitAndAssign", 's', ""), ("Sum", 's', ""), ("Product", 't', ""),
+    ("From", 's', ""), ("Into", 't', ""), ("Debug", 's', ""), ("Debug", 't', ""), ("Deref", 'a', "deref"), ("DerefMut", 'a', "deref_mut"),
+    ("Index", 'a', "index"), ("IndexMut", 'a', "index_mut"), ("IntoIterator", 'a', "into_iterator"), ("AsRef", 'a', "as_ref"), ("AsMut", 'a', "as_mut"),
+    ("Add", 'e', ""), ("From", 'e', ""), ("IsVariant", 'e', ""), ("Unwrap", 'e', ""), ("TryUnwrap", 'e', ""), ("TryInto", 'e', ""), ("Debug", 'e', ""),
+    ("FromStr", 'u', ""), ("TryFrom", 'r', ""), ("Display", 'u', ""), ("Error", 's', ""),
+];
+pub const WIDE_SIZES: &[usize] = &[1, 2, 3, 7, 8, 9, 13, 16, 17, 33, 65];
+
+/// A *wide* item: `slot` (not the PRNG) chooses the derive, the shape and the number of fields / variants, so
+/// that a run of consecutive slots walks through every (derive, size) combination — thresholds such as "eight
+/// or more fields" in a derive that no family stresses. Names and field types come from the PRNG.
+pub fn wide(r: &mut Rng, slot: usize) -> Key {
+    let (derive, shape, attr) = WIDE_DERIVES[slot % WIDE_DERIVES.len()];
+    let n = WIDE_SIZES[(slot / WIDE_DERIVES.len() + slot) % WIDE_SIZES.len()];
+    let name = ident(r, "Wd");
+    let generic = r.chance(1, 4);
+    let g = if generic { " < T >" } else { "" };
+    let ty = |r: &mut Rng, i: usize| if generic && i == 0 { "T".to_string() } else { r.pick(PRIMS).to_string() };
+    let item = match shape {
+        's' | 'a' => {
+            let fields: Vec<String> = (0..n).map(|i| {
+                let a = if shape == 'a' && i == 0 { format!("# [{attr}] ") } else { String::new() };
+                format!("{a}{} : {}", ident(r, "f"), ty(r, i))
+            }).collect();
+            format!("struct {name}{g} {{ {} }}", fields.join(" , "))
+        }
+        't' => {
+            let fields: Vec<String> = (0..n).map(|i| ty(r, i)).collect();
+            format!("struct {name}{g} ({}) ;", fields.join(" , "))
+        }
+        'e' => {
+            let vars: Vec<String> = (0..n).map(|i| match i % 3 {
+                0 => format!("{} ({})", ident(r, "V"), ty(r, i)),
+                1 => format!("{} ({} , {})", ident(r, "V"), ty(r, 1), ty(r, 2)),
+                _ => if derive == "Unwrap" || derive == "TryUnwrap" || derive == "TryInto" { ident(r, "V") } else { format!("{} {{ {} : {} }}", ident(r, "V"), ident(r, "f"), ty(r, 1)) },
+            }).collect();
+            format!("enum {name}{g} {{ {} }}", vars.join(" , "))
+        }
+        _ => {
+            let vars: Vec<String> = (0..n).map(|_| ident(r, "V")).collect();
+            let head = if shape == 'r' { "# [try_from (repr)] # [repr (u16)] " } else { "" };
+            format!("{head}enum {name} {{ {} }}", vars.join(" , "))
+        }
+    };
+    Key { derive: derive.to_string(), item }
+}
+
 /// The item without its generic parameters (`None` if it has none).
 pub fn strip_generics(key: &Key) -> Option<Key> {
     let mut di: syn::DeriveInput = syn::parse_str(&key.item).ok()?;
